@@ -47,7 +47,7 @@ class Find(Engine):
         for i in range(n):  # drop level i
             ks2 = ks[:i] + ks[i + 1:]
             s2 = s - 1 if i < s or (i == s and s == n - 1) else s
-            if stop == "ROOT":
+            if stop in ("ROOT", "EXT"):
                 emit(ks2, s2, stop)
             else:
                 j = int(stop[1:])
@@ -73,6 +73,8 @@ class Find(Engine):
         out = ["depth:%d" % len(ks), "result:" + res]
         if stop == "ROOT":
             out.append("stop:root")
+        elif stop == "EXT":
+            out.append("stop:target-of-linked-level")
         elif stop[0] == "U":
             out.append("stop:unrelated")
         else:
